@@ -5,14 +5,24 @@ MEM = r'^(_ZN4Theo|_ZNSt|_ZNKSt|_ZSt)\S*\.(pointer_dereference|pointer_arithmeti
 
 def run(prop, tier, seed, wd, t0):
     jobs = [vm.step_safe(tier, [prop], MEM)]
-    try:
-        import ctv
-        extra = lambda out: ctv.wf_obligations(prop, tier, seed, wd, out)
-    except ImportError:
-        extra = None
+    def extra(out):
+        cov = {}
+        try:
+            import ctv
+            cov.update(ctv.wf_obligations(prop, tier, seed, wd, out) or {})
+        except ImportError:
+            pass
+        try:
+            import genh      # (ii) for every source, not only the shape family: the generator's functions emit well-formed sequences (harness/gen_rules.cpp)
+            cov.update(genh.wf_emit_obligations(prop, tier, seed, wd, out) or {})
+        except ImportError:
+            pass
+        return cov
     return fw.run_e1(prop, tier, seed, wd, t0, jobs, fw.COMMON_ASSUMPTIONS + [
         'part (i): WF(program, ghost annotation) is assumed; part (ii) checks that compiler output satisfies the same WF predicate'],
         '(i) Layer A: WF(program) & Inv(state) => one real VM::executeSingle() violates no container precondition and no pointer/bounds check, '
         'keeps ip inside the code and re-establishes Inv (the activation stack types against the routine annotation). WF is the local type system of the '
         'statement of C03 (register operands < frame size of the PREPARE that created the frame, jumps stay in their routine, PREPARE/ARG*/EXEC sequences '
-        'agree with the callee). (ii) see the wf samples: compiled programs are checked against the same WF predicate.', extra=extra)
+        'agree with the callee). (ii) compiled programs of the shape family are checked against the same WF predicate (existential query, see the wf samples), and the real generator functions '
+        '(dispatchValue/dispatchCallArgs, dispatchProgram/popSymbols, dispatchGoto/If/Mark/backpatch, the register allocator, gen()) are executed symbolically from arbitrary generator states: what they '
+        'emit is a well-formed call sequence / frame / stack map / jump for names, operands and table contents of any value (counts fixed per obligation, listed in the evidence).', extra=extra)
